@@ -1,6 +1,6 @@
 """C04 — operations addressed to one bucket never change any other bucket."""
 from ..backends import BACKENDS, Store
-from ..gen import canon, mk_event, rand_grid
+from ..gen import bucket_ids, canon, mk_event, rand_grid
 from ._st import dump_store, raw_others, raw_view
 
 ID = "C04"
@@ -8,7 +8,7 @@ LEVEL = "exploration"
 ANCHOR_FILES = ["aw_datastore/storages/memory.py", "aw_datastore/storages/sqlite.py", "aw_datastore/storages/peewee.py"]
 REQUIRED_COUNTERS = ["ops.memory", "ops.sqlite", "ops.peewee", "frame_checks", "quiet_frame_checks", "ops_with_foreign_id",
                      "ops_on_deleted_bucket_id"]
-RULE = ("per case one store with 2-4 buckets created in a generated order and populated from one shared pool of start and "
+RULE = ("per case one store with 2-4 buckets (plain ids, or ids that differ only in letter case / LIKE wildcards / blanks / Unicode composition / last character) created in a generated order and populated from one shared pool of start and "
         "end instants (so instants coincide across buckets); then 8-25 single operations addressed to one bucket: "
         "insert, insert of an event carrying an id, bulk insert, bulk upsert, replace, replace_last, delete, "
         "update_bucket, delete_bucket + re-create, and operations addressed to a bucket that was deleted while a handle to it is "
@@ -58,7 +58,8 @@ def gen_case(rng, ctx):
             op["ids"] = [dict(origin=rng.choice(["own", "foreign", "foreign", "never", "none", "none", "huge", "str"]),
                               other=rng.randrange(nb), pick=rng.randrange(100)) for _ in op["evs"]]
         ops.append(op)
-    return dict(backend=backend, nb=nb, order=rng.sample(range(nb), nb), setup=setup, ops=ops, quiet=rng.random() < 0.5)
+    return dict(backend=backend, nb=nb, order=rng.sample(range(nb), nb), setup=setup, ops=ops, quiet=rng.random() < 0.5,
+                names=bucket_ids(rng, nb))
 
 
 _QUIET = {"store": None}
@@ -110,7 +111,7 @@ def run_case(case, ctx):
         ds = st.ds
         quiet = bool(case.get("quiet")) and backend != "memory"
         _QUIET["store"] = st if quiet else None
-        bids = [f"bk-{i}" for i in range(case["nb"])]
+        bids = list(case.get("names") or [f"bk-{i}" for i in range(case["nb"])])
         for i in case["order"]:
             ds.create_bucket(bids[i], type=f"type{i}", client=f"client{i}", hostname=f"host{i}", name=f"name{i}",
                              data={"n": i, "nested": {"k": [i]}})
